@@ -393,6 +393,7 @@ func scenarioLock(nw *netw, withCrash bool) {
 	nw.give(C, voteOfRound(V, 3, pc))
 	nw.give(C, voteOfRound(Z, 3, pc))
 	nw.waitFor(1500*time.Millisecond, func() bool { return nw.nodes[V].fin[1] || nw.nodes[C].fin[1] })
+	nw.scriptOK = true
 }
 
 // scenarioSplitPrecommit: precommits for one block spread over DIFFERENT
@@ -477,4 +478,5 @@ func scenarioSplitPrecommit(nw *netw) {
 	nw.give(C, voteOfRound(A, 1, pc))
 	nw.pump(300 * time.Millisecond)
 	nw.note("split-precommit: C holds B-precommits of V@0, A@1, Z@2; C finalized=%v", nw.nodes[C].fin[1])
+	nw.scriptOK = true
 }
